@@ -45,6 +45,10 @@ def run(ck, rng, tier):
             yt = [u * rng.uniform(2.1, 2.9) for _ in range(n)]
             yp = [y * (1.0 + rng.gauss(0, 0.01)) for y in yt]
             ytm = list(yt)
+        if c % 7 == 1 and nmiss:
+            # at a slot whose truth is missing-coded the prediction may be anything (here: huge), it is ignored
+            yp = list(yp)
+            yp[[i for i in range(n) if ytm[i] == MISSING][0]] = rng.choice((1e200, -3e180))
         if c % 7 == 3:
             # truths NEXT TO the missing-value code but outside its +-0.1 window (ordinary numbers, all of them count),
             # with one or two inside the window (missing)
@@ -72,8 +76,8 @@ def run(ck, rng, tier):
         if c < 6:
             kind = "monotone"     # every run: distinct scores a hair apart (the AUC only depends on the ranks)
         if kind == "monotone":
-            tiny = (lambda x: 1e-7 * x, lambda x: 1.0 / (1.0 + math.exp(-max(min(20.0 * x, 700.0), -700.0))), lambda x: 1.0 + 1e-9 * x)
-            f = tiny[c % 3] if c < 6 else rng.choice((lambda x: 3 * x + 1, lambda x: x ** 3 + x, lambda x: math.atan(x), lambda x: math.exp(min(x, 50) / 50)) + tiny)
+            tiny = (lambda x: 1e60 * x, lambda x: 1e-60 * x, lambda x: 1e-7 * x, lambda x: 1.0 / (1.0 + math.exp(-max(min(20.0 * x, 700.0), -700.0))), lambda x: 1.0 + 1e-9 * x)
+            f = tiny[c % 5] if c < 6 else rng.choice((lambda x: 3 * x + 1, lambda x: x ** 3 + x, lambda x: math.atan(x), lambda x: math.exp(min(x, 50) / 50)) + tiny)
             s2 = [f(x) for x in scores]
             if len(set(s2)) == n:
                 lines.append("roc %s %s" % (vf.fmt_vec(lab), vf.fmt_vec(s2))); meta.append(("roc", lab, s2, "monotone"))
